@@ -934,7 +934,10 @@ pub fn expression(input: SliceIter<Token>) -> ParseResult<Expression> {
     let _input = input.clone();
     match trace_parse!(_input, op_expression) {
         Result::Incomplete(i) => Result::Incomplete(i),
-        Result::Fail(_) => trace_parse!(input, non_op_expression),
+        // op_expression only fails when its first operand does. Trying the same
+        // operand again as a non_op_expression would fail the same way and doubles
+        // the work at every nesting level of a malformed input.
+        Result::Fail(e) => Result::Fail(e),
         Result::Abort(e) => Result::Abort(e),
         Result::Complete(rest, expr) => Result::Complete(rest, expr),
     }
